@@ -12,12 +12,23 @@ export CARGO_NET_OFFLINE=true CARGO_PROFILE_DEV_DEBUG=0 CARGO_PROFILE_TEST_DEBUG
 FEAT="alloc internals serde zeroize const-default"
 DF="$FEAT"
 grep -qi "faster-hex" "$d/notes.md" 2>/dev/null && DF="$FEAT faster-hex"
+MODE=native
+if [ ! -f "$d/demo.sh" ] && [ ! -f "$d/run_demo.sh" ]; then
+  if grep -q "miri test" "$d/notes.md" 2>/dev/null; then MODE=miri; elif grep -q "sanitizer=address" "$d/notes.md" 2>/dev/null; then MODE=asan; fi
+fi
 cd "$wt"
 run_demo() {
   if [ -f "$d/demo.sh" ]; then
     ( cd "$d" && bash ./demo.sh "$wt" ) > "$wt/demo.log" 2>&1
   elif [ -f "$d/run_demo.sh" ]; then
     ( cd "$d" && bash ./run_demo.sh "$wt" ) > "$wt/demo.log" 2>&1
+  elif [ "$MODE" = miri ]; then
+    # "undefined behaviour that works": the demonstration passes natively and is judged by Miri (Tree Borrows)
+    cp "$d/demo.rs" tests/demo_mut.rs
+    MIRIFLAGS="-Zmiri-tree-borrows" cargo +nightly miri test --offline --features "$DF" --test demo_mut > "$wt/demo.log" 2>&1
+  elif [ "$MODE" = asan ]; then
+    cp "$d/demo.rs" tests/demo_mut.rs
+    RUSTFLAGS=-Zsanitizer=address cargo +nightly test --offline --target x86_64-unknown-linux-gnu --features "$DF" --test demo_mut > "$wt/demo.log" 2>&1
   else
     cp "$d/demo.rs" tests/demo_mut.rs
     cargo test --offline --features "$DF" --test demo_mut > "$wt/demo.log" 2>&1
@@ -35,5 +46,5 @@ p1=$(grep -E "^test result" "$wt/suite1.log" | awk '{s+=$4} END {print s+0}')
 p2=$(grep -E "^test result" "$wt/suite2.log" | awk '{s+=$4} END {print s+0}')
 run_demo; mutant_demo=$?
 tail -5 "$wt/demo.log" | tr '"\n' "' " > "$wt/demo.tail"
-echo "{\"dir\":\"$d\",\"applies\":true,\"pristine_demo_rc\":$pristine_demo,\"suite_default_rc\":$s1,\"suite_default_passed\":$p1,\"suite_full_rc\":$s2,\"suite_full_passed\":$p2,\"mutant_demo_rc\":$mutant_demo,\"demo_tail\":\"$(cat $wt/demo.tail | head -c 400)\"}" > "$out"
+echo "{\"dir\":\"$d\",\"demo_mode\":\"$MODE\",\"applies\":true,\"pristine_demo_rc\":$pristine_demo,\"suite_default_rc\":$s1,\"suite_default_passed\":$p1,\"suite_full_rc\":$s2,\"suite_full_passed\":$p2,\"mutant_demo_rc\":$mutant_demo,\"demo_tail\":\"$(cat $wt/demo.tail | head -c 400)\"}" > "$out"
 cd /; git -C /repo worktree remove --force "$wt"
